@@ -1,7 +1,7 @@
 """C11 - decoding device data always terminates, whatever the bytes."""
 import tracemalloc
 
-PYOPT = 2  # every second shard also runs in an interpreter started with -O
+PYOPT = {"quick": 1, "thorough": 2}  # every (thorough: every second) shard also runs in the -O -W error / debug-logging configuration
 LEVEL = "exploration"
 BASE, SLOPE = 10_000, 1_024
 RULE = (
@@ -283,6 +283,10 @@ def run(shard, ctx):
                 ctx.add("hostility_classes", "%s:%s" % (f.name, klass))
                 call_budget(ctx, sm, f.name, lambda m=m: cls.unmarshall_datain(bytearray(m), **kw), m, alloc,
                             lambda m=m, klass=klass: {"decoder": f.name, "class": klass, "kwargs": kw, "buffer": m}, klass, memcheck=(i % 25 == 0))
+                if i % 3 == 0 and f.name != "readcd":
+                    instance_path(ctx, sm, f, rng, m, kw, klass)
+        if f.name == "readelementstatus":
+            cross_referenced_elements(ctx, sm, f, cls, rng, shard["small"])
         # (c) garbage, with every parameter combination
         kws = [{}]
         if f.name.startswith("inquiry"):
@@ -312,17 +316,78 @@ def run(shard, ctx):
         sm.close()
 
 
+def cross_referenced_elements(ctx, sm, f, cls, rng, small):
+    """fields that *refer to* other descriptors of the same response (SOURCE STORAGE ELEMENT ADDRESS with SVALID): every small
+    reference graph - self references, pairs and longer cycles that do or do not contain the start, chains into a cycle, references
+    to elements that are not reported - is data a hostile changer can send"""
+    import itertools
+
+    for n in (1, 2, 3, 4, 6):
+        maps = list(itertools.product(range(n + 1), repeat=n)) if n <= 4 else [tuple(rng.randrange(n + 1) for _ in range(n)) for _ in range(40 if small else 400)]
+        if small and len(maps) > 120:
+            maps = rng.sample(maps, 120)
+        for pi in maps:
+            for etypes in ((1,), (4,), (3, 1), (2, 4), (2,)):
+                v = {"first_element_address": 100, "num_elements": n, "element_status_pages": []}
+                k = 0
+                per = -(-n // len(etypes))
+                for t in etypes:
+                    p = {"element_type": t, "pvoltag": 0, "avoltag": 0, "_tail": 4, "element_descriptors": []}
+                    for _ in range(per):
+                        if k >= n:
+                            break
+                        d = {name: 0 for name, *_r in f.BYTYPE[t].fields}
+                        d.update({"element_address": 100 + k, "full": 1, "svalid": 1,
+                                  "source_storage_element_address": 100 + pi[k] if pi[k] < n else 999})  # 999: not reported
+                        p["element_descriptors"].append(d)
+                        k += 1
+                    v["element_status_pages"].append(p)
+                m = f.encode(v)
+                ctx.case((f.name, "xref", pi, etypes), True, sample={"decoder": f.name, "class": "cross_references", "source_of_each_element": list(pi)} if ctx.want_sample() else None)
+                ctx.add("hostility_classes", "%s:cross_references" % f.name)
+                ctx.count("reference_graphs")
+                call_budget(ctx, sm, f.name, lambda m=m: cls.unmarshall_datain(bytearray(m)), m, 0,
+                            lambda m=m, pi=pi: {"decoder": f.name, "class": "cross_references", "kwargs": {}, "buffer": m, "source_of_each_element": list(pi)}, "cross_references")
+
+
+def instance_path(ctx, sm, f, rng, m, kw, klass):
+    """the same bytes through a command *object*: cmd.datain = what the device left, cmd.unmarshall(**kw)"""
+    from vmon.props.c13 import FMT_BY_CMD, required_args
+    from vmon.spec import cdb as S
+
+    cname = next((c for c, fm in FMT_BY_CMD.items() if fm == f.name or (c == "Inquiry" and f.name.startswith("inquiry"))), None)
+    if cname is None and f.name.startswith("readdiscinformation"):
+        cname = "ReadDiscInformation"
+    if cname is None and f.name == "readcd":
+        cname = "ReadCd"
+    if cname is None:
+        return
+    c = S.COMMANDS[cname]
+    try:
+        from vmon import harness
+
+        cmd = harness.construct(c, c.sets[0], dict(required_args(c, rng)))
+    except Exception:  # noqa: BLE001
+        return
+    cmd.datain = bytearray(m)
+    ctx.count("instance_path_calls")
+    call_budget(ctx, sm, f.name + ".instance", lambda: cmd.unmarshall(**kw), m, 0,
+                lambda: {"decoder": f.name, "class": klass, "kwargs": kw, "buffer": m, "path": "cmd.unmarshall()"}, klass + ".instance")
+
+
 def run_scaling(shard, ctx, sm, rng):
     """work must be *proportional* to the size: the same kind of response with 16x as many (distinct) descriptors may not
     cost more than ~16x the steps"""
     from vmon.spec import datain as D
 
     for name in ("getlbastatus", "reportluns", "reporttargetportgroups", "readelementstatus", "prin.readkeys", "prin.readfullstatus",
-                 "inquiry.vpd83", "inquiry.vpd00", "inquiry.vpd80"):
+                 "inquiry.vpd83", "inquiry.vpd00", "inquiry.vpd80", "reportpriority"):
         f = D.FORMATS[name]
         cls = f.lib_cls()
         n1, n2 = (48, 768) if name not in ("inquiry.vpd00",) else (16, 256)
-        if shard["small"] is False and name not in ("inquiry.vpd83", "inquiry.vpd00", "prin.readfullstatus"):
+        if name == "reportpriority":
+            n1, n2 = 64, 1200  # 16 KiB, the default allocation length of the command
+        if shard["small"] is False and name not in ("inquiry.vpd83", "inquiry.vpd00", "prin.readfullstatus", "reportpriority"):
             n2 = 3072
         res = []
         vbig = f.gen(rng, ("count", n2, 0) if name == "reporttargetportgroups" else ("count", n2))
